@@ -168,8 +168,9 @@ AXIOMS = Axioms()
 PORTFOLIO = [
     # (options, share of the budget); verdicts of the seq/arith combination are
     # seed-sensitive, so several cheap configurations are tried before a long run
-    ({}, 0.1), ({'smt.arith.solver': 2}, 0.1), ({'smt.random_seed': 2}, 0.1), ({'smt.random_seed': 3}, 0.1),
-    ({'smt.arith.solver': 2, 'smt.random_seed': 5}, 0.1), ({}, 0.5),
+    ({}, 0.02), ({'smt.arith.solver': 2}, 0.04), ({}, 0.08), ({'smt.arith.solver': 2}, 0.08),
+    ({'smt.random_seed': 2}, 0.08), ({'smt.random_seed': 3}, 0.08),
+    ({'smt.arith.solver': 2, 'smt.random_seed': 5}, 0.08), ({}, 0.5),
 ]
 
 
